@@ -750,6 +750,23 @@ theorem emitL_mem_inv (fx : Bool) : ∀ (fs : List FieldDecl) (s : PyVal), s ∈
     · obtain ⟨f, hf, hs⟩ := emitL_mem_inv fx fs s h'
       exact ⟨f, by simp [hf], hs⟩
 
+/-- the size bound of a Map holds of the serialized object when it has as many members as the map
+    has entries (or there is no bound) -/
+theorem c08_sizeOk_of_sameCount (sz : SizeOpts) (n : Nat) (res : R PyVal) (j : PyVal) (hj : res = .ok j)
+    (hsz : sizeOk sz n = true) (hs : sameCount sz n res = true) :
+    ∀ r, j = .dict r → sizeOk sz r.length = true := by
+  intro r hr
+  subst hr
+  subst hj
+  simp only [sameCount, Bool.or_eq_true] at hs
+  rcases hs with h | h
+  · simp only [and_true_iff'] at h
+    have h1 : sz.min = none := by simpa using h.1
+    have h2 : sz.max = none := by simpa using h.2
+    simp [sizeOk, h1, h2, geLen, leLen]
+  · have : r.length = n := by simpa using h
+    rw [this]; exact hsz
+
 /-! ### the main induction -/
 
 mutual
@@ -884,15 +901,18 @@ theorem admits_field (O : Oracles) (S : String → String → Bool)
       · exact admits_zip O S hS D fs n xs hf.2 hrf hd hc.2 hr.1 ys hys
       · rw [emitL_length]; omega
     | _ => simp at hc
-  | .mapAny sz, n, v, _, _, _, hc, _ => by
+  | .mapAny sz, n, v, _, _, _, hc, hr => by
     intro j hj
     simp only [conforms, cMap] at hc
     cases v with
     | dict kvs =>
+      simp only [and_true_iff'] at hc
+      simp only [regF] at hr
+      have hcount := c08_sizeOk_of_sameCount sz kvs.length _ j hj hc.1 hr
       simp only [ser] at hj
       obtain ⟨r, _, rfl⟩ := sMap_dict _ kvs j hj
       simp only [emit]
-      exact jsV_mapAny _ S sz _
+      exact jsV_mapAny _ S sz _ (hcount _ rfl)
     | _ => simp at hc
   | .mapOf k vf sz, n, v, hf, hrf, hd, hc, hr => by
     intro j hj
@@ -901,11 +921,14 @@ theorem admits_field (O : Oracles) (S : String → String → Bool)
     cases v with
     | dict kvs =>
       simp only [and_true_iff'] at hc
-      simp only [regF] at hr
+      simp only [regF, and_true_iff'] at hr
+      have hcount := c08_sizeOk_of_sameCount sz kvs.length _ j hj hc.1 hr.2
+      have hr := hr.1
       simp only [RefsFaithful] at hrf
       simp only [refDepth] at hd
       simp only [ser] at hj
       obtain ⟨r, hr', rfl⟩ := sMap_dict _ kvs j hj
+      have hcount := hcount _ rfl
       simp only [emit]
       have hvals : (dictOfPairs r).all (fun kv => jsV (resolver D S n) S (emit true vf) kv.2) = true := by
         refine dictOfPairs_all (fun kv => jsV (resolver D S n) S (emit true vf) kv.2) (fun _ => true)
@@ -919,9 +942,9 @@ theorem admits_field (O : Oracles) (S : String → String → Bool)
         simp only [and_true_iff'] at hckv
         exact admits_field O S hS D vf n kv.2 hf.2 hrf hd hckv.2 (List.all_eq_true.mp hr kv hkv) v' hv'
       cases hkp : (mapKeyPattern k != "") with
-      | true => exact jsV_mapPat _ S k (emit true vf) sz _ hkp hvals
+      | true => exact jsV_mapPat _ S k (emit true vf) sz _ hkp hcount hvals
       | false =>
-        exact jsV_mapOf _ S k (emit true vf) sz _ (by simpa using hkp) (emit_shape true vf) hvals
+        exact jsV_mapOf _ S k (emit true vf) sz _ (by simpa using hkp) (emit_shape true vf) hcount hvals
     | _ => simp at hc
   | .struct c fields defaults, n, v, hf, hrf, hd, _, hr => by
     intro j hj
